@@ -1,7 +1,12 @@
 """Shared by C04 and C06: case generator, engine runner (cached by content), and the DIRECT ORACLES that restate
 both properties on the implementation's output alone (script + observed results/frames; no Coq model involved).
 
-Script line:  K<cap> C<nconns> step step ...
+Script line:  [E<server|tower>] K<cap> C<nconns> step step ...
+  E = the entry point the REAL server is assembled through (harness/src/bin/subhist.rs): `server` (default, no token)
+      = Server::builder().build(addr) + Server::start(module); `tower` = ONE TowerServiceBuilder
+      (ServerBuilder::to_service_builder()) per history, cloned for every accepted TCP connection and served from the
+      harness's own hyper accept loop.  The model has one semaphore per connection whatever the entry point and ignores
+      the token; the oracles below do not look at it either.
   sub,c,req | uns,c,req,target | acc,s | rej,s,code | cl,s,src,k | dr,s,k | snd,s,k,x | tsnd,s,k,x | isc,s,k
   ret,s,n|m|e,x | ab,s,k|d | dp,s | cd,c | stop
   ab,s,k|d = the subscribe call of s is ABANDONED (the harness's rpc middleware drops the call future and answers 44);
@@ -10,11 +15,13 @@ Script line:  K<cap> C<nconns> step step ...
 Output line (both sides): {"c":[[frame,...] per connection],"end":[closed by the server?],"r":[result per step]}
 Subscription ids come from the harness's counting IdProvider: handle s has id 1000+s.
 """
-import hashlib, json, os
+import hashlib, json, os, random
 import vlib
 
 ID_BASE = 1000
 KNOWN_KEY = "sink-clone-dropped"
+BELOW_OWN_CAP_KEY = "subscribe-refused-below-own-cap"
+ENTRIES = ("server", "tower")
 NEVER_ACTIVE_KEY = "unsubscribe-true-for-never-active"
 
 
@@ -200,8 +207,21 @@ def random_script(rng, cap, nconns, length, p_cd=0.04, p_stop=0.02):
     return g.steps
 
 
-def line_of(cap, nconns, steps):
-    return "K%d C%d %s" % (cap, nconns, " ".join(steps))
+def line_of(cap, nconns, steps, entry=None):
+    """entry None / "server" = no token: the line (and the engine's output) is what it was before the entry-point dimension"""
+    return "%sK%d C%d %s" % ("" if entry in (None, "server") else "E%s " % entry, cap, nconns, " ".join(steps))
+
+
+def entry_of(line):
+    for tok in line.split():
+        if tok[0] == "E":
+            return tok[1:]
+    return "server"
+
+
+def with_entry(line, entry):
+    cap, nconns, steps = parse_line(line)
+    return line_of(cap, nconns, steps, entry)
 
 
 def inject_drop(steps, pos, c):
@@ -388,6 +408,101 @@ def abandon_family():
     return res
 
 
+def own_cap_family():
+    """Targeted family for "the cap is per CONNECTION" (2 and 3 connections, caps 1..3): A fills its cap (pending or
+    accepted) and is refused one more; B -- holding nothing -- subscribes up to ITS OWN cap (each must be admitted) and is
+    refused one more; A ends k of its subscriptions (reject / drop pending / handler return / abandon / unsubscribe + last
+    sink dropped / connection drop); B, still at its own count, is still refused; A starts k new ones and is refused the
+    k+1-th; B ends j and starts j new ones; a third connection that holds nothing is admitted throughout.
+    Returns script lines WITHOUT entry token (handles are the implementation's: the generator's bookkeeping tells which
+    subscribes are admitted)."""
+    res = []
+    for cap in (1, 2, 3):
+        for nconns in (2, 3):
+            for a_mode in ("acc", "pend"):
+                for b_mode in ("acc", "pend"):
+                    for end in ("rej", "dp", "ret", "abd", "uns+dr", "dr", "cd"):
+                        for k in range(1, cap + 1):
+                            if end in ("rej", "dp", "ret", "abd") and a_mode != "pend":
+                                continue
+                            if end in ("uns+dr", "dr") and a_mode != "acc":
+                                continue
+                            if end == "cd" and k != cap:
+                                continue
+                            g = GenSim(cap, nconns)
+
+                            def sub(c, n, mode):
+                                """n subscribe calls on c; the admitted ones are accepted when mode = acc; -> their handles"""
+                                hs = []
+                                for _ in range(n):
+                                    before = len(g.subs)
+                                    g.apply("sub,%d,%d" % (c, g.next_req()))
+                                    if len(g.subs) > before:
+                                        hs.append(before)
+                                        if mode == "acc":
+                                            g.apply("acc,%d" % before)
+                                return hs
+
+                            ha = sub(0, cap + 1, a_mode)          # A fills its cap, one more is refused
+                            if nconns == 3:
+                                sub(2, 1, "pend")                 # the bystander is admitted while A is full
+                            hb = sub(1, cap + 1, b_mode)          # B fills ITS OWN cap, one more is refused
+                            for h in ha[:k]:                      # A ends k
+                                if end == "rej":
+                                    g.apply("rej,%d,7" % h)
+                                elif end == "dp":
+                                    g.apply("dp,%d" % h)
+                                elif end == "ret":
+                                    g.apply("ret,%d,n,0" % h)
+                                elif end == "abd":
+                                    g.apply("ab,%d,d" % h)
+                                elif end == "uns+dr":
+                                    g.apply("uns,0,%d,%d" % (g.next_req(), ID_BASE + h))
+                                    g.apply("dr,%d,0" % h)
+                                elif end == "dr":
+                                    g.apply("dr,%d,0" % h)
+                            if end == "cd":
+                                g.apply("cd,0")
+                            sub(1, 1, b_mode)                     # B is still at its own cap: refused
+                            if end != "cd":
+                                sub(0, k + 1, a_mode)             # A starts k new ones, the k+1-th is refused
+                            j = min(k, len(hb))
+                            for h in hb[:j]:                      # B ends j of its own ...
+                                if b_mode == "acc":
+                                    g.apply("dr,%d,0" % h)
+                                else:
+                                    g.apply("rej,%d,3" % h)
+                            sub(1, j + 1, b_mode)                 # ... and starts j new ones, one more is refused
+                            if nconns == 3:
+                                sub(2, cap, "acc")                # the bystander up to its own cap (it holds 1 already)
+                            res.append(line_of(cap, nconns, g.steps))
+    return res
+
+
+def entry_cases(ctx):
+    """The entry-point dimension: [(line, tag)].  The two-connection families -- the targeted own-cap family, random walks
+    over 2..3 connections, the exhaustive short scripts with 2 connections -- and the fixed corpus, each script under BOTH
+    entry points (`server` lines carry no token, see line_of).  Own generator so that the case set of gen_cases' other
+    families does not move."""
+    rng = random.Random(ctx.seed * 104729 + 6006)
+    scripts = [(l, "own-cap-family") for l in own_cap_family()]
+    scripts += [(l, "corpus") for l in CORPUS if parse_line(l)[1] >= 2]
+    scripts += [(l, "abandon-family") for l in abandon_family() if parse_line(l)[1] >= 2][:ctx.scale(60, 100000)]
+    for _ in range(ctx.scale(500, 5000)):
+        cap = rng.choice([1, 1, 2, 2, 3])
+        nconns = rng.choice([2, 2, 2, 3])
+        steps = random_script(rng, cap, nconns, rng.choice([8, 12, 18, 26]), p_cd=0.03, p_stop=0.01)
+        scripts.append((line_of(cap, nconns, steps), "random-2c"))
+    for cap in (1, 2):
+        for steps in exhaustive_short(cap, 2, ctx.scale(3, 4), limit=ctx.scale(250, 6000), rng=rng):
+            scripts.append((line_of(cap, 2, steps), "exhaustive-short-2c"))
+    out = []
+    for line, tag in scripts:
+        for e in ENTRIES:
+            out.append((with_entry(line, e), "entry-%s:%s" % (e, tag)))
+    return out
+
+
 def gen_cases(ctx):
     """Returns [(line, tag)].  Deterministic in ctx.rng."""
     rng = ctx.rng
@@ -421,6 +536,8 @@ def gen_cases(ctx):
             lim = ctx.scale(150, 6000)
             for steps in exhaustive_short(cap, nconns, depth, limit=lim, rng=rng):
                 cases.append((line_of(cap, nconns, steps), "exhaustive-short"))
+    # the entry-point dimension (Server::start / tower service), appended last with a generator of its own
+    cases += entry_cases(ctx)
     return cases
 
 
@@ -493,6 +610,8 @@ def parse_line(line):
             cap = int(tok[1:])
         elif tok[0] == "C":
             nconns = int(tok[1:])
+        elif tok[0] == "E":
+            pass                      # entry point of the real server: see entry_of
         else:
             steps.append(tok)
     return cap, nconns, steps
@@ -565,9 +684,17 @@ def oracles(line, out_text):
                     f06("cap-exceeded", "step %d: subscribe admitted with %d live on conn %d, cap %d" % (i, live(c), c, cap))
                 subs.append(OSub(len(subs), c, req))
             elif r == "refused":
-                # C06: the slot of every ended subscription is back: refusing below the cap is a failure
+                # C06: the slot of every ended subscription is back and the cap is per CONNECTION: refusing a connection
+                # whose OWN live count is below the cap is a failure.  Two names for it: when other connections hold
+                # subscriptions right now the refusal counted theirs (subscribe-refused-below-own-cap), otherwise a slot of
+                # this connection's own ended subscriptions did not come back (slot-not-returned)
                 if live(c) < cap:
-                    f06("slot-not-returned", "step %d: -32006 with only %d live on conn %d, cap %d" % (i, live(c), c, cap))
+                    others = [(d, live(d)) for d in range(nconns) if d != c and live(d)]
+                    if others:
+                        f06(BELOW_OWN_CAP_KEY, "step %d: -32006 on conn %d whose own live count is %d, cap %d; live on the other connections: %s"
+                            % (i, c, live(c), cap, ", ".join("conn %d: %d" % o for o in others)))
+                    else:
+                        f06("slot-not-returned", "step %d: -32006 with only %d live on conn %d, cap %d" % (i, live(c), c, cap))
             elif r == "na":
                 if conn_open[c] and not stopped:
                     f06("subscribe-unanswered", "step %d" % i)
@@ -721,13 +848,14 @@ def shrink(line, key, prop, budget=2500):
     """Greedy step removal while the same oracle failure key persists on the implementation.
     Returns (shrunk line, oracle detail on the shrunk line)."""
     cap, nconns, steps = parse_line(line)
+    entry = entry_of(line)
     cur = steps
     tries = 0
     changed = True
     while changed and tries < budget:
         changed = False
         cands = [cur[:i] + cur[i + 1:] for i in range(len(cur))]
-        lines = [line_of(cap, nconns, c) for c in cands]
+        lines = [line_of(cap, nconns, c, entry) for c in cands]
         outs = run_impl(lines)
         tries += len(lines)
         for cand, l, o in zip(cands, lines, outs):
@@ -735,7 +863,7 @@ def shrink(line, key, prop, budget=2500):
                 cur = cand
                 changed = True
                 break
-    final = line_of(cap, nconns, cur)
+    final = line_of(cap, nconns, cur, entry)
     out = run_impl([final])[0]
     detail = next((d for k, d in oracles(final, out)[prop] if k == key), None)
     return final, detail
